@@ -8,8 +8,9 @@
   LOOP: r4 <- r1 ; body(r4) ; advfor r1, r2, r3 ; if r1 jump LOOP
   END:
 
-  Comparisons go through the REGENERATED `Generated.Comp.ltIntAndFloat` /
-  `ltFloatAndInt` (runtime/comp.go numIsLessThan / isLessThan).
+  Comparisons go through the REGENERATED `Generated.Comp.ltIntAndFloat` / `ltFloatAndInt` /
+  `leIntAndFloat` / `leFloatAndInt` (runtime/comp.go numIsLessThan / numIsLessOrEqual).
+  As of /repo 5163798 the limit tests are `not (v <= limit)` so that a NaN ends the loop.
 -/
 import GoluaVerif.Generated.Comp
 import GoluaVerif.Spec.For
@@ -23,6 +24,13 @@ def isLessThan : Num → Num → Bool
   | .int x, .flt y => Generated.Comp.ltIntAndFloat x y
   | .flt x, .int y => Generated.Comp.ltFloatAndInt x y
   | .flt x, .flt y => F64.blt x y
+
+/-- runtime/comp.go `numIsLessOrEqual` (false if either side is NaN) -/
+def isLessOrEqual : Num → Num → Bool
+  | .int x, .int y => BitVec.sle x y
+  | .int x, .flt y => Generated.Comp.leIntAndFloat x y
+  | .flt x, .int y => Generated.Comp.leFloatAndInt x y
+  | .flt x, .flt y => F64.ble x y
 
 /-- runtime/comp.go `isZero` -/
 def isZero : Num → Bool
@@ -63,15 +71,16 @@ def prepfor (start stop step : Val) : Prep :=
     let (a, d) := unify a d
     if isZero d then .errZeroStep
     else
-      let done := if isPositive d then isLessThan l a else isLessThan a l
+      -- "the loop continues while the value is <= the limit": a NaN on either side ends it
+      let done := if isPositive d then !isLessOrEqual a l else !isLessOrEqual l a
       .ok (if done then none else some a) l d
 
 /-- the F-on branch: the new content of the start register (`none` = nil = loop finished) -/
 def advfor (start stop step : Num) : Option Num :=
   let next := add start step
   let done :=
-    if isPositive step then isLessThan stop next || isLessThan next start
-    else isLessThan next stop || isLessThan start next
+    if isPositive step then !isLessOrEqual next stop || isLessThan next start
+    else !isLessOrEqual stop next || isLessThan start next
   if done then none else some next
 
 /-- content of the start register after `k` executions of advfor -/
